@@ -242,7 +242,7 @@ theorem shadowEach_ok (fm : IP) : ∀ (ts returned r' : List Ty),
 theorem shadowGo_sound : ∀ (l : List IP) (returned : List Ty), shadowGo l returned = true →
     ∀ (pre : List IP) (f : IP) (post : List IP), l = pre ++ f :: post →
       ∀ t ∈ f.c.ret, t ∉ f.c.recv →
-        (t ∈ returned ∨ ∃ g ∈ pre, t ∈ g.c.ret ∧ t ∉ g.c.recv) →
+        (t ∈ returned ∨ ∃ g ∈ pre, t ∈ g.c.ret) →
         ((f.c.cls = .fallibleStaticInjectorFunc ∨ f.c.cls = .fallibleInjectorFunc) ∧ (t = tError ∨ t = tTerminal))
         ∨ t ∈ f.c.shadowOK
   | [], _, _, pre, f, post, hl, _, _, _, _ => by simp at hl
@@ -263,25 +263,35 @@ theorem shadowGo_sound : ∀ (l : List IP) (returned : List Ty), shadowGo l retu
         simp only [List.cons_append, List.cons.injEq] at hl
         obtain ⟨hp, hrest⟩ := hl
         subst hp
-        refine shadowGo_sound rest r' h pre' f post hrest t ht hnr ?_
-        rcases hbelow with hb | ⟨g, hg, hgt, hgr⟩
-        · exact Or.inl (shadowEach_mono fm _ returned r' he t hb)
+        refine shadowGo_sound rest _ h pre' f post hrest t ht hnr ?_
+        rcases hbelow with hb | ⟨g, hg, hgt⟩
+        · exact Or.inl (List.mem_append_left _ (shadowEach_mono fm _ returned r' he t hb))
         · rcases List.mem_cons.mp hg with heq | hin
           · subst heq
-            exact Or.inl (shadowEach_adds g _ returned r' he t (by simp [hgt, hgr]))
-          · exact Or.inr ⟨g, hin, hgt, hgr⟩
+            -- `g` itself returns `t`: either it did not receive it (then `shadowEach` recorded it) or it passes it on
+            by_cases hgr : g.c.recv.contains t = true
+            · by_cases hin' : t ∈ r'
+              · exact Or.inl (List.mem_append_left _ hin')
+              · refine Or.inl (List.mem_append_right _ ?_)
+                simp only [List.mem_filter, Bool.and_eq_true, Bool.not_eq_true', List.contains_eq_mem, decide_eq_false_iff_not]
+                exact ⟨hgt, by simpa using hgr, hin'⟩
+            · have hgr' : t ∉ g.c.recv := by simpa using hgr
+              exact Or.inl (List.mem_append_left _ (shadowEach_adds g _ returned r' he t (by simp [hgt, hgr'])))
+          · exact Or.inr ⟨g, hin, hgt⟩
 
-/-- in list order: `below` are the providers listed after `f` -/
+/-- in list order: `below` are the providers listed after `f`.  Whoever returns `t` below counts -- also a
+    wrapper that received `t` from further down and passes it on (the value may have been returned there under
+    another type, matched through Loose). -/
 theorem C15_no_shadowing (ch : Chain) (h : checkShadowing ch = true) (above : List IP) (f : IP) (below : List IP)
     (hl : ch = above ++ f :: below) (t : Ty) (ht : t ∈ f.c.ret) (hnr : t ∉ f.c.recv)
-    (hb : ∃ g ∈ below, t ∈ g.c.ret ∧ t ∉ g.c.recv) :
+    (hb : ∃ g ∈ below, t ∈ g.c.ret) :
     ((f.c.cls = .fallibleStaticInjectorFunc ∨ f.c.cls = .fallibleInjectorFunc) ∧ (t = tError ∨ t = tTerminal))
     ∨ t ∈ f.c.shadowOK := by
   unfold checkShadowing at h
   have hrev : ch.reverse = below.reverse ++ f :: above.reverse := by
     rw [hl]; simp
-  obtain ⟨g, hg, hgt, hgr⟩ := hb
+  obtain ⟨g, hg, hgt⟩ := hb
   exact shadowGo_sound ch.reverse [] h below.reverse f above.reverse hrev t ht hnr
-    (Or.inr ⟨g, by simpa using hg, hgt, hgr⟩)
+    (Or.inr ⟨g, by simpa using hg, hgt⟩)
 
 end Nject
